@@ -21,6 +21,8 @@
 mod parse_obs;
 #[path = "../wacgen.rs"]
 mod wacgen;
+#[path = "../c14_pairs.rs"]
+mod c14_pairs;
 use indexmap::IndexMap;
 use miette::{Diagnostic, GraphicalReportHandler, GraphicalTheme, NamedSource, Report};
 use parse_obs::*;
@@ -73,7 +75,7 @@ fn unhex(s: &str) -> Vec<u8> {
     (0..s.len() / 2).filter_map(|i| u8::from_str_radix(&s[2 * i..2 * i + 2], 16).ok()).collect()
 }
 
-/// returns "status" or Err(problem)
+/// returns "status" (for a rejection followed by `\u{1}` and the canonical error string) or Err(problem)
 fn job_text(src: &str) -> Result<String, String> {
     match Document::parse(src) {
         Ok(doc) => {
@@ -95,7 +97,7 @@ fn job_text(src: &str) -> Result<String, String> {
             labels_ok(&e, src)?;
             let variant = es.split('|').next().unwrap_or("").to_string();
             render(e, src)?;
-            Ok(format!("reject:{variant}"))
+            Ok(format!("reject:{variant}\u{1}{es}"))
         }
     }
 }
@@ -168,7 +170,10 @@ fn worker() {
             _ => Err("unknown job".into()),
         });
         let answer = match r {
-            Ok(Ok(status)) => format!("ok\t{}", esc(&status)),
+            Ok(Ok(status)) => match status.split_once('\u{1}') {
+                Some((st, detail)) => format!("ok\t{}\t{}", esc(st), esc(detail)),
+                None => format!("ok\t{}", esc(&status)),
+            },
             Ok(Err(problem)) => format!("bad\t{}", esc(&problem)),
             Err(p) => format!("panic\t{}", esc(&p)),
         };
@@ -216,7 +221,8 @@ fn spawn_worker() -> Worker {
 }
 
 enum Answer {
-    Ok(String),
+    /// status, detail (the canonical error string of a rejected text)
+    Ok(String, String),
     Bad(String),
     Panic(String),
     Crash(String),
@@ -240,7 +246,7 @@ impl Sup {
                 let parts: Vec<&str> = l.split('\t').collect();
                 let d = parts.get(1).map(|s| unesc_field(s)).unwrap_or_default();
                 match parts.first().copied() {
-                    Some("ok") => Answer::Ok(d),
+                    Some("ok") => Answer::Ok(d, parts.get(2).map(|s| unesc_field(s)).unwrap_or_default()),
                     Some("bad") => Answer::Bad(d),
                     Some("panic") => Answer::Panic(d),
                     _ => Answer::Bad(format!("unreadable answer {l:?}")),
@@ -263,6 +269,13 @@ impl Sup {
 
     /// one case: run the job, write the case line, report failures
     fn case(&mut self, kind: &str, origin: &str, a: &str, b: &str) {
+        self.case_expect(kind, origin, a, b, None)
+    }
+
+    /// `expect`: what the nesting limit implies for a well-formed text whose bracket depth is
+    /// known — `Some(true)`: at most the limit, it has to be accepted; `Some(false)`: deeper, it has
+    /// to be rejected with `NestingTooDeep`
+    fn case_expect(&mut self, kind: &str, origin: &str, a: &str, b: &str, expect: Option<bool>) {
         let mut ans = self.run(kind, a, b);
         if let Answer::Timeout = ans {
             // a loaded machine can make a job slow: only a job that also exceeds ten times the
@@ -276,17 +289,32 @@ impl Sup {
         self.out.count(&format!("origin:{}", origin));
         let shown_a = if a.len() > 4000 { format!("{}…[{} bytes]…{}", &a[..safe_cut(a, 300)], a.len(), &a[a.len() - safe_cut_back(a, 100)..]) } else { a.to_string() };
         let (status, fail): (String, Option<(String, String)>) = match ans {
-            Answer::Ok(s) => {
+            Answer::Ok(s, detail) => {
                 self.out.count(&format!("status:{}", s.split(':').take(2).collect::<Vec<_>>().join(":")));
-                (s, None)
+                let too_deep = detail.starts_with("Lexer|NestingTooDeep|");
+                let fail = match expect {
+                    Some(true) if s != "accept" => {
+                        Some((format!("{origin}: a well-formed text within the nesting limit is rejected"), format!("status {s} {detail}")))
+                    }
+                    Some(false) if !too_deep => {
+                        Some((format!("{origin}: nesting beyond the limit is not reported as NestingTooDeep"), format!("status {s} {detail}")))
+                    }
+                    _ => None,
+                };
+                if let Some(e) = expect {
+                    self.out.count(if e { "ladder:expected-accept" } else { "ladder:expected-too-deep" });
+                }
+                (s, fail)
             }
             Answer::Bad(p) => ("bad".into(), Some((format!("{origin}: {}", first_words(&p)), p))),
             Answer::Panic(p) => ("panic".into(), Some((format!("{origin}: panic"), p))),
             Answer::Crash(s) => ("crash".into(), Some((format!("{origin}: worker process died ({s})"), s))),
             Answer::Timeout => ("timeout".into(), Some((format!("{origin}: no answer within {:?} (second attempt)", self.timeout * 10), String::new()))),
         };
-        // only `text` cases of moderate size go to the Lean driver
-        let driver_kind = if kind == "text" && a.len() <= 3000 { "text" } else { "other" };
+        // only `text` cases of moderate size go to the Lean driver (the ladders around the nesting
+        // limit are a few times longer than the other texts)
+        let driver_max = if origin.starts_with("ladder") { 12_000 } else { 3000 };
+        let driver_kind = if kind == "text" && a.len() <= driver_max { "text" } else { "other" };
         let id = if driver_kind == "text" {
             let a2 = a.to_string();
             let flag = guarded(move || lex_obs(&a2).map(|x| x.1)).ok().flatten().unwrap_or_else(|| "-".into());
@@ -464,19 +492,107 @@ fn mutate_text(r: &mut Rng, s: &str) -> String {
     v.into_iter().collect()
 }
 
-fn ladder(shape: usize, n: usize) -> String {
+/// number of ladder shapes
+const LADDER_SHAPES: usize = 22;
+
+/// `open`×n `core` `close`×n
+fn nest(open: &str, core: &str, close: &str, n: usize) -> String {
+    let mut s = String::with_capacity((open.len() + close.len()) * n + core.len());
+    for _ in 0..n {
+        s.push_str(open);
+    }
+    s.push_str(core);
+    for _ in 0..n {
+        s.push_str(close);
+    }
+    s
+}
+
+/// Shapes 0–9: plain nesting / plain length.  Shapes 10–17: every level closes a sibling bracket
+/// pair (of the same or another kind) before — and in 15 also after — it goes one level deeper, so
+/// that the depth of the parser's recursion and the number of brackets open at a time differ from
+/// what plain nesting gives; all three bracket kinds and their mixtures.  Shapes 18–21: `n` closed
+/// bracket pairs in a row (flat) followed by nesting exactly as deep as `tail` (the callers pass
+/// the limit, or 100 when there is none): accepted however long the flat part is.
+fn ladder(shape: usize, n: usize, tail: usize) -> String {
+    // sibling shapes of types: the nested type is the last argument
+    let sib_angle = |n: usize| nest("tuple<list<u8>, ", "u8", ">", n);
     match shape {
         0 => format!("package a:b; let x = {}y{};", "(".repeat(n), ")".repeat(n)),
         1 => format!("package a:b; type t = {}u8{};", "list<".repeat(n), ">".repeat(n)),
         2 => format!("package a:b; type t = {}u8{};", "tuple<".repeat(n), ">".repeat(n)),
-        3 => format!("package a:b; type t = {}u8{};", "option<result<".repeat(n / 2), ">>".repeat(n / 2)),
+        3 => format!("package a:b; type t = {}u8{};", "option<result<".repeat(n), ">>".repeat(n)),
         4 => format!("package a:b; let x = {}y{};", "new a:b { z: ".repeat(n), " }".repeat(n)),
         5 => format!("package a:b; {} let x = y;", "/*".repeat(n) + &"*/".repeat(n)),
         6 => format!("package a:b; let x = y{};", ".z[\"q\"]".repeat(n)),
         7 => format!("package a:b; let x = {}y;", "(".repeat(n)),
         8 => format!("package a:b; {}", "/*".repeat(n)),
-        _ => format!("package a:b; interface i {{ {} }}", "f: func(a: u8) -> u8; ".repeat(n)),
+        9 => format!("package a:b; interface i {{ {} }}", "f: func(a: u8) -> u8; ".repeat(n)),
+        // `{` below `{` with a closed `{}` sibling at every level
+        10 => format!("package a:b; let x = {};", nest("new a:b{x: new c:d{}, y: ", "new c:d{}", "}", n)),
+        // `<` below `<` with a closed `<>` sibling
+        11 => format!("package a:b; type t = {};", sib_angle(n)),
+        // `{` below `{` with a closed `()` sibling
+        12 => format!("package a:b; let x = {};", nest("new a:b{x: (q), y: ", "q", "}", n)),
+        // `(` and `{` alternating with a closed `{}` and a closed `()` sibling
+        13 => format!("package a:b; let x = {};", nest("(new a:b{x: new c:d{}, y: (q), z: ", "q", "})", n)),
+        // two kinds of closed `<>` siblings per level, two levels per step
+        14 => format!("package a:b; type t = {};", nest("result<option<u8>, tuple<list<u8>, ", "u8", ">>", n)),
+        // closed siblings before and after the nested one
+        15 => format!("package a:b; type t = {};", nest("tuple<list<u8>, ", "u8", ", option<u8>>", n)),
+        // `{` `{` `(` `<`…: a function type in an inline interface of a world
+        16 => format!("package a:b; world w {{ import i: interface {{ f: func(a: list<u8>, b: {}) -> list<u8>; }}; }}", sib_angle(n)),
+        // closed bodies (`{}` with `<>` inside) before the nested type, in an open body
+        17 => format!("package a:b; interface i {{ record r {{ a: list<u8>, }} variant v {{ c(option<u8>), }} type t = {}; }}", sib_angle(n)),
+        // flat: closed `{}` and `()` pairs, then plain nesting of `(`
+        18 => format!("package a:b; {}let x = {};", "interface i{}let a=(b);".repeat(n), nest("(", "y", ")", tail)),
+        // flat: closed `<>` pairs inside closed `{}`, then plain nesting of `<`
+        19 => format!("package a:b; {}type t = {};", "record r{a: list<u8>}".repeat(n), nest("list<", "u8", ">", tail)),
+        // flat inside one open body: closed pairs of all kinds, then nesting up to the limit
+        20 => format!("package a:b; interface i {{ {}type t = {}; }}", "f: func(a: list<u8>);".repeat(n), nest("list<", "u8", ">", tail.saturating_sub(1))),
+        // flat arguments of one `new`, then nesting up to the limit in the last argument
+        _ => format!("package a:b; let x = new a:b{{{}z: {}}};", "x: new c:d{}, y: (q), ".repeat(n), nest("(", "y", ")", tail.saturating_sub(1))),
     }
+}
+
+/// is every text of this shape well-formed (so that only the nesting limit can reject it)?
+fn ladder_well_formed(shape: usize) -> bool {
+    matches!(shape, 0..=4 | 10..=21)
+}
+
+/// does the depth of this shape grow with `n` (nesting) or only its length?
+fn ladder_nests(shape: usize) -> bool {
+    matches!(shape, 0..=4 | 7 | 10..=17)
+}
+
+/// The largest number of brackets `(`, `<`, `{` open at a time: a textual scan (`->` is one
+/// token, not a closing bracket; the ladder texts have no comments or strings with brackets
+/// except shapes 5, 6 and 8, for which this is not used).
+fn bracket_depth(text: &str) -> usize {
+    let b = text.as_bytes();
+    let (mut d, mut max, mut i) = (0usize, 0usize, 0usize);
+    while i < b.len() {
+        match b[i] {
+            b'-' if i + 1 < b.len() && b[i + 1] == b'>' => i += 1,
+            b'(' | b'<' | b'{' => {
+                d += 1;
+                max = max.max(d);
+            }
+            b')' | b'>' | b'}' => d = d.saturating_sub(1),
+            _ => {}
+        }
+        i += 1;
+    }
+    max
+}
+
+/// `MAX_NESTING_DEPTH` of the lexer under test, read from its source like the translator of the
+/// model does (`None`: no limit — then only crashes are failures)
+fn nesting_limit(repo: &str) -> Option<usize> {
+    let src = std::fs::read_to_string(format!("{repo}/crates/wac-parser/src/lexer.rs")).ok()?;
+    let at = src.find("pub const MAX_NESTING_DEPTH: usize = ")?;
+    let rest = &src[at + "pub const MAX_NESTING_DEPTH: usize = ".len()..];
+    rest[..rest.find(';')?].trim().parse().ok()
 }
 
 fn main() {
@@ -521,24 +637,63 @@ fn main() {
         }
         let max_pow = args.num("ladder", 6);
         let base = sup.timeout;
-        for shape in 0..10 {
+        let limit = nesting_limit(&repo);
+        sup.out.add("setup:nesting-limit", limit.unwrap_or(0) as u64);
+        let tail = limit.unwrap_or(100);
+        // what the limit implies for a well-formed ladder text
+        let expect = |shape: usize, text: &str| -> Option<bool> {
+            if !ladder_well_formed(shape) {
+                return None;
+            }
+            limit.map(|l| bracket_depth(text) <= l)
+        };
+        // With a nesting limit in the lexer a dead worker is never the known finding of the tree
+        // without one (`ladder-nesting: worker process died`): the origin says which tree it is.
+        let nesting_origin = if limit.is_some() { "ladder-bounded-nesting" } else { "ladder-nesting" };
+        let origin = |shape: usize| if ladder_nests(shape) { nesting_origin.to_string() } else { "ladder-length".to_string() };
+        for shape in 0..LADDER_SHAPES {
             let mut n = 10;
             for _ in 1..=max_pow {
-                let text = ladder(shape, n);
+                let text = ladder(shape, n, tail);
                 // long flat inputs are only slow (linear), not dangerous: keep them below 3 MB
-                if text.len() <= 3_000_000 {
+                // (the flat shapes with closed siblings, all accepted in full: 300 kB in the quick tier)
+                let cap = if shape >= 18 && !thorough { 300_000 } else { 3_000_000 };
+                if text.len() <= cap {
                     let kind = if n >= 1000 { "deep" } else { "text" };
                     sup.timeout = base + Duration::from_secs(60 * (text.len() as u64 / 1_000_000 + 1));
-                    sup.case(kind, &format!("ladder-{}", if shape <= 4 || shape == 7 { "nesting" } else { "length" }), &text, "");
+                    let t0 = std::time::Instant::now();
+                    sup.case_expect(kind, &origin(shape), &text, "", expect(shape, &text));
+                    if std::env::var_os("WACV_DEBUG").is_some() {
+                        eprintln!("ladder shape {shape} n {n} bytes {} took {:?}", text.len(), t0.elapsed());
+                    }
                 }
                 n *= 10;
             }
         }
         sup.timeout = base;
-        // around the nesting limit of the lexer (if it has one)
-        for shape in [0usize, 1, 2, 4, 7] {
-            for n in [100usize, 126, 127, 128, 129, 130, 200, 500] {
-                sup.case("text", "ladder-nesting", &ladder(shape, n), "");
+        // around the nesting limit of the lexer (if it has one): the depth of a shape is affine
+        // in `n`; for every target depth the smallest `n` that reaches it
+        let targets: Vec<usize> = match limit {
+            Some(l) if l >= 30 => vec![l - 28, l - 2, l - 1, l, l + 1, l + 2, l + 72, l + 372],
+            _ => vec![100, 126, 127, 128, 129, 130, 200, 500],
+        };
+        for shape in (0..LADDER_SHAPES).filter(|s| ladder_nests(*s)) {
+            let d = |n: usize| bracket_depth(&ladder(shape, n, tail));
+            let (d1, d2) = (d(1), d(2));
+            let step = d2.saturating_sub(d1).max(1);
+            for t in &targets {
+                let n = (t.saturating_sub(d1) + step - 1) / step + 1;
+                let text = ladder(shape, n, tail);
+                sup.case_expect("text", nesting_origin, &text, "", expect(shape, &text));
+            }
+        }
+        // closed bracket pairs in a row before nesting exactly up to / one beyond the limit
+        for shape in (0..LADDER_SHAPES).filter(|s| !ladder_nests(*s) && ladder_well_formed(*s)) {
+            for n in [0usize, 1, 40, 150, 400] {
+                for tl in [tail.saturating_sub(1), tail, tail + 1] {
+                    let text = ladder(shape, n, tl);
+                    sup.case_expect("text", "ladder-length", &text, "", expect(shape, &text));
+                }
             }
         }
     }
@@ -707,6 +862,85 @@ fn main() {
             let t = mutate_text(&mut r, src);
             sup.case("resolve", "pair-document-mutated", &t, &spec(pk));
         }
+        // one package replaced by a generated one that exports, under the names the document
+        // uses, types of unusual shapes
+        let paths = c14_pairs::package_paths(src);
+        for _ in 0..(if thorough { 30 } else { 3 }) {
+            if pk.is_empty() {
+                break;
+            }
+            let mut pk2 = pk.clone();
+            let j = r.below(pk2.len());
+            let key = pk2[j].0.clone();
+            let (name, version) = match key.split_once('@') {
+                Some((n, v)) => (n.to_string(), Some(v.to_string())),
+                None => (key.clone(), None),
+            };
+            let mut tops: Vec<String> = paths.iter().filter(|(p, _)| p.split('@').next() == Some(name.as_str())).map(|(_, s)| s.clone()).collect();
+            if tops.is_empty() || r.chance(1, 4) {
+                tops.push((*r.pick(&["x", "baz", "i", "foo"])).to_string());
+            }
+            let g = c14_pairs::gen_package(&mut r, &name, version.as_deref(), &tops);
+            match wat::parse_str(&g.wat) {
+                Ok(bytes) => {
+                    pk2[j].1 = bytes;
+                    sup.case("resolve", "pair-package-generated", src, &spec(&pk2));
+                }
+                Err(e) => {
+                    sup.out.count("setup:generated-wat-rejected");
+                    if std::env::var_os("WACV_DEBUG").is_some() {
+                        eprintln!("generated WAT rejected: {e}\n{}", g.wat);
+                    }
+                }
+            }
+        }
+    }
+
+    // 6. generated documents that name, in every syntactic position of a package path, the
+    //    exports of generated packages whose exported types have unusual shapes
+    for i in 0..scale(800, 80_000) {
+        let g = c14_pairs::gen_named_package(&mut r);
+        let bytes = match wat::parse_str(&g.wat) {
+            Ok(b) => b,
+            Err(e) => {
+                sup.out.count("setup:generated-wat-rejected");
+                if std::env::var_os("WACV_DEBUG").is_some() {
+                    eprintln!("generated WAT rejected: {e}\n{}", g.wat);
+                }
+                continue;
+            }
+        };
+        for sh in &g.shapes {
+            // the outermost shape only: `component[label:instance]`, `instance`, `func`, …
+            let outer: String = sh.chars().take_while(|c| *c != ',').take(48).collect();
+            sup.out.count(&format!("generated-package:{}", outer));
+        }
+        if i % 4 == 0 {
+            sup.case("bytes", "bytes-generated", &hex(&bytes), "");
+        }
+        let key = match &g.version {
+            Some(v) => format!("{}@{}", g.name, v),
+            None => g.name.clone(),
+        };
+        for _ in 0..3 {
+            let doc = c14_pairs::gen_document(&mut r, &g);
+            sup.case("resolve", "generated-pair", &doc, &format!("{}={}", key, hex(&bytes)));
+        }
+    }
+
+    // 7. implicit and explicit imports on one name or semver track with equal and with conflicting
+    //    types, in every order: every conflict has to come back from `Resolution::encode` as a
+    //    diagnostic
+    for _ in 0..scale(600, 60_000) {
+        let (doc, pkgs) = c14_pairs::gen_conflict(&mut r);
+        let mut items = Vec::new();
+        for (name, wat) in &pkgs {
+            match wat::parse_str(wat) {
+                Ok(bytes) => items.push(format!("{}={}", name, hex(&bytes))),
+                Err(_) => sup.out.count("setup:generated-wat-rejected"),
+            }
+        }
+        sup.case("resolve", "generated-conflict", &doc, &items.join(","));
     }
     let _ = sup.w.child.kill();
     sup.out.finish();
